@@ -290,6 +290,60 @@ def run(tier: str, driver_ok: bool) -> Result:
                             res.violation("unsupported algorithm reached the token", case, key=f"unsupported:alg{alg.value}", impl=impl)
                     lines.append({"op": "sign_using_p11", "hsm": C.hsm_j(cfg), "label": "L", "hashUsingHsm": on_hsm, "data": hexs(msg), "algorithm": alg.value, "log": C.canon_log(world.log), **orcs})
                     checks.append({"case": case, "impl": impl, "log": C.canon_log(world.log), "what": "sign_using_p11"})
+    # the same through the signer's own loading path (load_pkcs11_key -> sign_using_p11): the hashing mode configured for the
+    # KSK must reach the token whatever the token profile (EC private object with / without point, RSA with / without public
+    # exponent on the private object), also when the public key has to be re-queried from the public object
+    from datetime import datetime, timezone
+
+    from kskm.common.config_misc import KSKKey, KSKPolicy
+    from kskm.ksr.data import RequestBundle
+    from kskm.signer.key import load_pkcs11_key
+
+    inc = datetime(2024, 1, 1, tzinfo=timezone.utc)
+    bundle = RequestBundle(id="b", inception=inc, expiration=datetime(2024, 1, 22, tzinfo=timezone.utc), keys=set(), signatures=set(), signers=None)
+    for alg_v, tk in ((8, K.rsa_keys(2048, 65537)[0]), (10, K.rsa_keys(1024, 65537)[2]), (13, K.ec_keys("P-256")[1]), (14, K.ec_keys("P-384")[1])):
+        for on_hsm in (False, True, None):
+            for profile in ("pub_attrs", "no_pub_attrs"):
+                for wrapped in (True, False) if tk.kind == "ec" else (True,):
+                    msg = r.randbytes(r.choice([0, 33, 200]))
+                    es = p11emu.EmuSlot(0)
+                    if tk.kind == "rsa":
+                        es.add_rsa("L", tk, priv_has_pub_attrs=True)
+                        if profile == "no_pub_attrs":
+                            continue  # (an RSA private object without exponent is a TypeError in /repo: covered by the lookup stream)
+                    else:
+                        es.add_ec("L", tk, wrapped_point=wrapped, priv_has_point=(profile == "pub_attrs"))
+                    world = p11emu.World([p11emu.EmuModule("emu0", [es])])
+                    cfg = mk_cfg([{"path": "emu0"}])
+                    ksk = KSKKey(description="d", label="L", algorithm=AlgorithmDNSSEC(alg_v), valid_from=inc, rsa_size=(tk.k * 8 if tk.kind == "rsa" else None), rsa_exponent=(tk.e if tk.kind == "rsa" else None), hash_using_hsm=on_hsm)
+                    with world.installed(), C.Oracles() as orc:
+
+                        def go3() -> Any:
+                            p11 = H.init_pkcs11_modules(cfg)
+                            ck = load_pkcs11_key(ksk, p11, KSKPolicy(), bundle, public=False)
+                            return H.sign_using_p11(ck.p11, msg, AlgorithmDNSSEC(alg_v))
+
+                        impl = lib.run_impl(go3, hexs)
+                        orcs = orc.take()
+                    case = {"via": "load_pkcs11_key", "alg": alg_v, "hash_using_hsm": on_hsm, "profile": profile, "wrapped": wrapped, "msg_len": len(msg)}
+                    res.count(case)
+                    res.bump("sign-via-load")
+                    signs = [rec for rec in world.log if rec["op"] == "sign"]
+                    if "ok" not in impl or len(signs) != 1:
+                        res.violation("signing with a supported algorithm did not reach the token exactly once", case, key=f"reach-load:alg{alg_v}", impl=impl)
+                    else:
+                        sg = signs[0]
+                        h = K.ALG_HASH[alg_v]
+                        if on_hsm:
+                            want_mech = {8: LL.CKM_SHA256_RSA_PKCS, 10: LL.CKM_SHA512_RSA_PKCS, 13: LL.CKM_ECDSA_SHA256, 14: LL.CKM_ECDSA_SHA384}[alg_v]
+                            want_data = msg
+                        elif tk.kind == "rsa":
+                            want_mech, want_data = LL.CKM_RSA_X_509, tk.emsa(h, msg)
+                        else:
+                            want_mech, want_data = LL.CKM_ECDSA, hashlib.new(h, msg).digest()
+                        if sg["mechanism"] != int(want_mech) or bytes.fromhex(sg["data"]) != want_data:
+                            res.violation("octets / mechanism handed to the token are not the documented ones", case, key=f"octets-load:alg{alg_v}:{on_hsm}", got={"mechanism": sg["mechanism"], "data": sg["data"][:80]}, want={"mechanism": int(want_mech), "data": hexs(want_data)[:80]})
+
     # symmetric key types never sign
     for kt in (H.KeyType.AES, H.KeyType.DES3):
         key = H.KSKM_P11Key(label="S", key_type=kt, key_class=H.KeyClass.SECRET, public_key=None)
@@ -350,7 +404,10 @@ def run(tier: str, driver_ok: bool) -> Result:
                 continue
             m = o["result"]
             if lib.is_unsupported(m):
-                res.unsupported += 1
+                if c["what"] == "sign_using_p11" and c["case"].get("alg") in (15, 16):
+                    res.unsupported += 1  # EdDSA signing is outside the model
+                else:
+                    res.disagreement(f"{c['what']}: the model could not follow the implementation's run (replay / oracle miss)", c["case"], c["impl"], m, log_difference=C.first_log_difference(c["log"], o["log"]))
                 continue
             d = C.first_log_difference(c["log"], o["log"])
             if not lib.same_outcome(c["impl"], m):
